@@ -88,6 +88,20 @@ def mask_family():
                         rv = Diff.tree_primal(rd)
                         if not (isinstance(rv, Mask) and bool(jnp.all(rv.primal_flag() == bool(post)))):
                             fail("mask.edit: the retdiff's primal is not a Mask carrying the NEW flag", pre=pre, post=post)
+                        # the whole new trace, not only what a False flag lets through: arguments and the inner trace (the
+                        # inner edit is run whatever the flag), identically for Python-bool flags (eager) and traced flags (jit)
+                        if not close(new.get_args()[1], newmu) or not close(new.inner.get_args()[0], newmu):
+                            fail("mask.edit: the new trace / its inner trace does not hold the new arguments", pre=pre, post=post,
+                                 newmu=newmu, args=new.get_args()[1], inner_args=new.inner.get_args()[0])
+                        jn, jw, _, _ = jax.jit(lambda p_, q_: m.edit(KEY, m.simulate(KEY, (p_, 0.3)), Update(cons),
+                                                                    (Diff(q_, UnknownChange), Diff(newmu, UnknownChange))))(
+                            jnp.array(bool(pre)), jnp.array(bool(post)))
+                        same = close(jw, w) and all(close(a, b) for a, b in zip(
+                            jax.tree_util.tree_leaves((jn.get_args()[1], jn.inner.get_args(), jn.inner.get_score(), jn.get_score())),
+                            jax.tree_util.tree_leaves((new.get_args()[1], new.inner.get_args(), new.inner.get_score(), new.get_score()))))
+                        if not same:
+                            fail("mask.edit: eager result differs from the result under jit", pre=pre, post=post, newmu=newmu,
+                                 constraint=cons, w=w, jit_w=jw)
 
 
 def distribution_family():
@@ -106,6 +120,29 @@ def distribution_family():
         ssim = jnp.sum(tfp.distributions.Normal(mu, 2.0).log_prob(sim.get_retval()))
         if jnp.shape(sim.get_score()) != () or not close(sim.get_score(), ssim):
             fail("Distribution simulate score: not the summed TFP log_prob of the sample", batch_shape=shape, got=sim.get_score(), want=ssim)
+    # C24: a rank-0 value scored against batched parameters (the log_prob array has the batch shape, the value has none)
+    tfd = tfp.distributions
+    loc, scale = jnp.array([-1.0, 0.0, 2.0]), jnp.array([0.5, 1.0, 2.0])
+    want = jnp.sum(tfd.Normal(loc, scale).log_prob(0.3))
+    for nm, got in (("assess", normal.assess(C.choice(0.3), (loc, scale))[0]),
+                    ("importance weight", normal.importance(KEY, C.choice(0.3), (loc, scale))[1]),
+                    ("update score", normal.edit(KEY, normal.simulate(KEY, (0.0, 1.0)), Update(C.choice(0.3)),
+                                                 Diff.unknown_change((loc, scale)))[0].get_score())):
+        if jnp.shape(got) != () or not close(got, want):
+            fail(f"Distribution {nm}: scalar value against batched parameters is not the summed TFP log_prob", got=got, want=want)
+    # C24: each wrapper scores exactly like the TFP distribution it wraps, for every parameter value incl. the boundary
+    cases = [(genjax.flip, (0.0,), True, tfd.Bernoulli(probs=0.0, dtype=jnp.bool_)), (genjax.flip, (0.0,), False, tfd.Bernoulli(probs=0.0, dtype=jnp.bool_)),
+             (genjax.flip, (1.0,), True, tfd.Bernoulli(probs=1.0, dtype=jnp.bool_)), (genjax.flip, (0.3,), True, tfd.Bernoulli(probs=0.3, dtype=jnp.bool_)),
+             (genjax.bernoulli, (0.4,), 1, tfd.Bernoulli(logits=0.4)), (genjax.categorical, (jnp.array([0.1, 0.5, -1.0]),), 2, tfd.Categorical(logits=jnp.array([0.1, 0.5, -1.0]))),
+             (genjax.exponential, (1.5,), 0.7, tfd.Exponential(1.5)), (genjax.beta, (2.0, 3.0), 0.25, tfd.Beta(2.0, 3.0)),
+             (genjax.uniform, (0.0, 2.0), 0.5, tfd.Uniform(0.0, 2.0)), (genjax.gamma, (2.0, 1.5), 0.8, tfd.Gamma(2.0, 1.5))]
+    for dist, params, value, ref in cases:
+        got = dist.assess(C.choice(jnp.asarray(value)), params)[0]
+        wantv = jnp.sum(ref.log_prob(value))
+        same = bool(jnp.isneginf(got) and jnp.isneginf(wantv)) or close(got, wantv, tol=1e-6)
+        if not same:
+            fail("distribution wrapper: assess score differs from the TFP log_prob", dist=getattr(dist, "name", dist), params=params,
+                 value=value, got=got, want=wantv)
     for v, flag in ((None, None), (1.2, None), (1.2, True), (1.2, False), (1.2, jnp.array(True)), (1.2, jnp.array(False))):
         c = C.empty() if v is None else (C.choice(v) if flag is None else C.choice(Mask(v, flag)))
         tr, w = normal.importance(KEY, c, (0.5, 2.0))
@@ -670,6 +707,63 @@ def diff_family():
                 fail("Diff.tree_diff(tree_primal(t), tree_tangent(t)) does not rebuild t's tags", tree=tags)
 
 
+def incremental_family():
+    """C09: the incremental interpreter on small programs (closed-over array constants, multi-result primitives with dropped
+    results, literals, cond / scan / while): primal outputs equal ordinary evaluation, and an output tagged NoChange keeps its
+    value when the inputs tagged UnknownChange are replaced by other values (two-run non-interference)"""
+    import itertools
+    from genjax._src.core.compiler.interpreters.incremental import incremental
+    K2 = jnp.array([2.0, -1.0, 0.5])
+
+    def with_const(x, y):
+        return x * K2 + 1.0, y * 3.0
+
+    def two_consts(x, y, z):
+        return (x + K2) * jnp.array([1.0, 0.0, 2.0]), y - 1.0, z * y
+
+    def scan_carry_dropped(x, y):
+        _, ys = jax.lax.scan(lambda c, s: (c + s * y, c * 2.0 + s), 1.0, x)
+        return ys
+
+    def scan_all(x, y):
+        tot, ys = jax.lax.scan(lambda c, s: (c + s * y, c), 0.0, x)
+        return tot, ys
+
+    def while_counter_dropped(x, y):
+        _, acc = jax.lax.while_loop(lambda t: t[0] < 4.0, lambda t: (t[0] + 1.0, t[1] * y + 1.0), (0.0, x[0]))
+        return acc
+
+    def cond_first_dropped(x, y):
+        _, b = jax.lax.cond(y > 0.0, lambda u, v: (u + 1.0, v * 3.0), lambda u, v: (u - 1.0, v * 5.0), x[1], y)
+        return b
+
+    def literal_and_passthrough(x, y):
+        return 7.0, x, y + 0.0
+    base = (jnp.array([1.0, 2.0, 3.0]), jnp.float32(0.5), jnp.float32(4.0))
+    alt = (jnp.array([-4.0, 0.25, 9.0]), jnp.float32(-1.5), jnp.float32(-2.0))
+    tu = jax.tree_util
+    for f, nargs in ((with_const, 2), (two_consts, 3), (scan_carry_dropped, 2), (scan_all, 2), (while_counter_dropped, 2),
+                     (cond_first_dropped, 2), (literal_and_passthrough, 2)):
+        args = base[:nargs]
+        want = tu.tree_leaves(f(*args))
+        for tags in itertools.product((NoChange, UnknownChange), repeat=nargs):
+            name = f"{f.__name__}[{','.join(type(t).__name__ for t in tags)}]"
+            out = incremental(f)(None, tuple(args), tuple(tags))
+            leaves = tu.tree_leaves(out, is_leaf=lambda v: isinstance(v, Diff))
+            prim = [l.primal if isinstance(l, Diff) else l for l in leaves]
+            tang = [l.tangent if isinstance(l, Diff) else NoChange for l in leaves]
+            if len(prim) != len(want) or not all(jnp.shape(a) == jnp.shape(b) and close(a, b) for a, b in zip(prim, want)):
+                fail("incremental: primal outputs differ from ordinary evaluation", program=name)
+                continue
+            args2 = tuple(alt[i] if tags[i] is UnknownChange else args[i] for i in range(nargs))
+            out2 = incremental(f)(None, args2, tuple(tags))
+            leaves2 = tu.tree_leaves(out2, is_leaf=lambda v: isinstance(v, Diff))
+            prim2 = [l.primal if isinstance(l, Diff) else l for l in leaves2]
+            for j, (t, a, b) in enumerate(zip(tang, prim, prim2)):
+                if t is NoChange and not close(a, b):
+                    fail("incremental: an output tagged NoChange depends on an input tagged UnknownChange", program=name, output=j)
+
+
 def key_family():
     """C04: distinct addresses / iterations / elements draw independent randomness, results are functions of (key, args).
     Fair coin flips everywhere: any two distinct sites must agree with frequency 1/2 (4000 keys, tolerance 0.06); nested
@@ -952,8 +1046,8 @@ def selection_family():
 
 FAMILIES = [
     (("C19.Mask.", "Mask._or_idx"), mask_algebra_family), (("C18.",), selection_family), ((".Diff.",), diff_family),
-    (("C04.",), key_family), (("C21.",), pytree_family), (("C25.", "Marginal"), marginal_family), (("C27.", "Rejuvenate"), rejuvenate_family), (("C31.",), time_travel_family), (("C17.",), choice_map_family), (("C26.",), smc_family),
-    (("MaskCombinator", "MaskTrace"), mask_family), (("Distribution", "ExactDensity"), distribution_family),
+    (("C09.", "incremental"), incremental_family), (("C04.",), key_family), (("C21.",), pytree_family), (("C25.", "Marginal"), marginal_family), (("C27.", "Rejuvenate"), rejuvenate_family), (("C31.",), time_travel_family), (("C17.",), choice_map_family), (("C26.",), smc_family),
+    (("MaskCombinator", "MaskTrace"), mask_family), (("Distribution", "ExactDensity", "C24."), distribution_family),
     (("Dimap",), dimap_family), (("Switch",), switch_family), (("Vmap", "repeat"), vmap_family),
     (("Scan", "iterate", "accumulate", "reduce", "masked_iterate"), scan_family),
     (("Handler", "StaticGenerativeFunction", "StaticTrace"), static_family),
